@@ -24,6 +24,12 @@ import Vata.Proofs.Equivariance
   has this property is the explicit hypothesis `hh` (it follows from C04 for the relation the code computes).
   The hypothesis is asked on `A.states` only: `downSimRef A ⊆ A.states × A.states`, so asked for all `q` it would be
   unsatisfiable (`reduce_hyp_all_unsat`).
+* **The map as the code computes it.**  Two topic files (which import this one) remove the hypothesis:
+  `Vata/Properties/C05_ReduceModel.lean` – `reduceModel A order` computes the collapse map with the matrix loops of
+  `RestrictToSymmetric` / `GetQuotientProjection` from `downSimRef A` (`C05_model`, `C05_model_projection`); and
+  `Vata/Properties/C05_Pipeline.lean` – `SimPipe.reduceAsCoded A` is `Reduce` end to end (`ComputeSimulation` as coded with the
+  model of the LTS engine, the class models of `BinaryRelation` / `DiscontBinaryRelation`, `CollapseStates`,
+  `RemoveUnreachableStates`): `C05_pipeline` is the property for it, with no hypothesis but `Ranked A`.
 -/
 namespace Vata.Props
 open Vata
@@ -101,16 +107,33 @@ example : List.map (repOf SimModel.exA) [0, 1, 2, 3, 4] = [0, 0, 2, 2, 4] ∧ In
 example : (reduceRef (reindex EqvEx.exF SimModel.exA)).states = [40, 26] := by decide
 
 /-!
+## closed since the last refresh of this file
+
+* **"That the collapse map the C++ derives (`RestrictToSymmetric` + `GetQuotientProjection` on the relation returned by
+  `ComputeSimulation`) satisfies the hypothesis `hh` (and is a quotient projection) is not a theorem about a model of these
+  two functions"** – closed twice: for the list-of-rows model of the two functions on the reference relation
+  (`C05_model_projection`, `C05_model`, `C05_model_order_independent` in `C05_ReduceModel.lean`), and for the class-level
+  functions (`BinRel.Disc.restrictToSymmetric`, `BinRel.Disc.quotProj` on the flat matrix with the two-way dictionary) applied to
+  the relation `ComputeSimulation` as coded returns (`C05_pipeline`, `C05_pipeline_refines_reduceModel`, `C05_pipeline_matrix`,
+  `C05_pipeline_class_level` in `C05_Pipeline.lean`; the class theorems are `Util_BinRel_restrictToSymmetric`,
+  `Util_BinRel_quotient_equiv`, `Util_BinRel_discont`).  `Reduce` as coded always returns and never grows the automaton
+  (`C05_pipeline_never_grows`), and hash order has no influence on the size of the result (`C05_pipeline_size`).
+* **"the statement with `eraseDups` on both sides is not proved"** – closed: third conjunct of `C05_model` /
+  `C05_model_never_grows` / `C05_pipeline`.
+* Totality of the reference decider the outputs are compared with: `C05_reference_total` (`Vata/Properties/RefTotal.lean`),
+  composed with `Reduce` as coded in `C05_pipeline_passes_reference`.
+
 ## not yet proved
 
-* That the collapse map the C++ derives (`RestrictToSymmetric` + `GetQuotientProjection` on the relation returned by
-  `ComputeSimulation`) satisfies the hypothesis `hh` (and is a quotient projection, `IsQuotProj`) is not a theorem about
-  a model of these two functions; it is the conjunction of C04 (the relation is `downSimRef A`) with the evident
-  property of a quotient projection.  What is proved is that such a map exists and is computable (`repOf`,
-  `C05_canonical_reduce`) and that the sizes do not depend on the choice (`C05_quotient_size`).
-* The rule count is stated for rule *lists* (`List.length`); for the set semantics of the C++ ("number of distinct
-  rules") it gives the claim when the input list has no duplicates, the statement with `eraseDups` on both sides is not
-  proved.
+* The order of the rule list stands for the hash order of the C++ (the order in which the translation to an LTS meets the
+  states, `SimPipe.downOrder`); all statements hold for every order, but the order itself is not an object of the model.
+* `Ranked A` is a hypothesis of the language statement for `Reduce` as coded (it always holds for the explicit encoding,
+  whose symbols are (name, rank) pairs); without it the downward encoding is wrong (`C04_downward_via_lts_needs_ranked`),
+  though `Reduce` still returns and does not grow the automaton.
+* `CollapseStates` / `RemoveUnreachableStates` inside `Reduce` are the relation-level models `reindex` / `removeUnreachable`
+  (C14, C03), not the store-level models of `Vata/Store.lean`; the engine inside treats its helper classes as values (C16).
+* The model is sensitive to a realistic slip (`C05_model_skip_row0_changes_language`), but that the C++ loops are the loops
+  of the model is the `binrel` correspondence check, not a theorem.
 * Minimality of the result (no two remaining states simulation-equivalent) is not claimed by the property and not proved.
 -/
 end Vata.Props
